@@ -5,6 +5,7 @@ package harness
 import (
 	"errors"
 	"fmt"
+	"math"
 
 	"github.com/onflow/atree"
 )
@@ -453,17 +454,17 @@ func (e *Engine) arrayOp(n *Node, op *Op) error {
 		return nil
 
 	case "badget":
-		idx := cnt + op.P%3
+		idx := badIndex(cnt, op.P, false)
 		_, err := a.Get(idx)
 		e.Stats.label("rejected")
 		return e.expectIndexOOB(err, fmt.Sprintf("Get(%d) of %d", idx, cnt))
 	case "badrem":
-		idx := cnt + op.P%3
+		idx := badIndex(cnt, op.P, false)
 		_, err := a.Remove(idx)
 		e.Stats.label("rejected")
 		return e.expectIndexOOB(err, fmt.Sprintf("Remove(%d) of %d", idx, cnt))
 	case "badset":
-		idx := cnt + op.P%3
+		idx := badIndex(cnt, op.P, false)
 		v, _, err := e.mkScalar(op.V, n.Addr, e.MaxArrElem)
 		if err != nil {
 			return err
@@ -472,7 +473,7 @@ func (e *Engine) arrayOp(n *Node, op *Op) error {
 		e.Stats.label("rejected")
 		return e.expectIndexOOB(err, fmt.Sprintf("Set(%d) of %d", idx, cnt))
 	case "badins":
-		idx := cnt + 1 + op.P%3
+		idx := badIndex(cnt, op.P, true)
 		v, _, err := e.mkScalar(op.V, n.Addr, e.MaxArrElem)
 		if err != nil {
 			return err
@@ -482,6 +483,41 @@ func (e *Engine) arrayOp(n *Node, op *Op) error {
 		return e.expectIndexOOB(err, fmt.Sprintf("Insert(%d) of %d", idx, cnt))
 	}
 	return fmt.Errorf("verif: unknown array op %q", op.K)
+}
+
+// badIndex returns an index that is out of range for an array of cnt elements (first invalid index: cnt, for Insert
+// cnt+1): just beyond the end, far beyond it, the extremes, and values whose low 16 / 32 bits are a VALID index
+// (they alias an element if an implementation narrows the index before checking it).
+func badIndex(cnt uint64, p uint64, ins bool) uint64 {
+	lo := cnt
+	if ins {
+		lo = cnt + 1
+	}
+	in := uint64(0)
+	if cnt > 0 {
+		in = (p >> 8) % cnt
+	}
+	switch p % 12 {
+	case 3:
+		return lo + (p>>8)%1000
+	case 4:
+		return 1<<32 + in
+	case 5:
+		return (1+(p>>8)%7)<<32 + in
+	case 6:
+		return 1<<63 + in
+	case 7:
+		return math.MaxUint32
+	case 8:
+		return math.MaxUint64
+	case 9:
+		return math.MaxUint64 - (p>>8)%4
+	case 10:
+		return 1<<32 + lo
+	case 11:
+		return 1<<31 + lo
+	}
+	return lo + p%3
 }
 
 // mkScalar is mk restricted to values that create no container (used for requests that must be rejected).
@@ -1121,13 +1157,21 @@ func (e *Engine) rejectedOp(op *Op) error {
 		cnt := uint64(len(n.Elems))
 		var s, t uint64
 		wantOOB := true
-		switch op.P % 4 {
+		switch op.P % 8 {
 		case 0:
 			s, t = 0, cnt+1+op.P%5
 		case 1:
 			s, t = cnt+1, cnt+1
 		case 2:
 			s, t = cnt+2, cnt
+		case 4:
+			s, t = 0, 1<<32+cnt/2 // aliases a valid end if narrowed to 32 bits
+		case 5:
+			s, t = 1<<32, 1<<32+cnt
+		case 6:
+			s, t = 1<<32+cnt/2, cnt
+		case 7:
+			s, t = 0, math.MaxUint64
 		default:
 			if cnt < 2 {
 				s, t = cnt+1, cnt+3
@@ -1137,7 +1181,9 @@ func (e *Engine) rejectedOp(op *Op) error {
 			}
 		}
 		nop := func(atree.Value) (bool, error) { return true, nil }
-		for _, err := range []error{n.HA.IterateRange(s, t, nop), n.HA.IterateReadOnlyRange(s, t, nop)} {
+		_, e3 := n.HA.RangeIterator(s, t)
+		_, e4 := n.HA.ReadOnlyRangeIterator(s, t)
+		for _, err := range []error{n.HA.IterateRange(s, t, nop), n.HA.IterateReadOnlyRange(s, t, nop), e3, e4} {
 			if wantOOB {
 				var oob *atree.SliceOutOfBoundsError
 				if err == nil || !errors.As(err, &oob) || !isUser(err) || isFatal(err) {
